@@ -2,6 +2,7 @@ import SakuraVerif.Spec.Core
 import SakuraVerif.Gen.Consts
 import SakuraVerif.Lemmas.ExecRefine
 import SakuraVerif.Lemmas.LexPrint
+import SakuraVerif.Lemmas.LexPrint2
 /-! # C03 (T0) — defaults, clamps and single-command laws of the core note language
 
 `Spec.Core.sem` is the denotational semantics the real compiler is compared with on every run.
@@ -116,5 +117,34 @@ example : Lp.pwfL demoText ∧ Ex2.cwfL demoText := by
   · simp [demoText, Ex2.cwfL, Ex2.cwf, Ex2.noteWF, Ex2.lenOK, Len.isDigit, Len.render, Len.segs, Len.PartSyn.wf, Lx.intMin]
 -- (the printed text of `demoText` is "l8 o4 [2 c+,80,,,5 [3 r > : ( ] : q50 ] b-*%96^4.,,127,-3, "; texts are produced and
 --  fed to the real lexer by the `print` stream on every run)
+
+/-- **print → lex for the whole block language**: notes, rests, setters, loops with `:`, chords `'…'L,q,v`, `Sub{…}` and tuplets `{…}L`
+    nested in one another to any depth.  The nested `lex` calls of `Sub`/tuplets are part of the statement (their token lists are the
+    children of the block token, the tuplet's element count is the one `Core.countElems` prescribes). -/
+theorem C03_lex_print_blocks (cs : List Cmd) (hp : Lp.pwfL2 cs) :
+    Lx.lex 96 (Lp.printKL2 cs []) 0 = some ⟨Ex2.compileL cs, []⟩ := Lp.lex_print2 cs hp
+
+theorem C03_text_to_semantics_blocks (cs : List Cmd) (hp : Lp.pwfL2 cs) (hw : Ex2.cwfL cs) :
+    ∃ F0, ∀ F, F0 ≤ F → ∃ o s', Lx.lex 96 (Lp.printKL2 cs []) 0 = some o ∧ o.errs = [] ∧
+      Ex2.exec F (Ex2.depthL cs) o.toks {} = some s' ∧ Ex2.abs s' = semL cs St.init := by
+  obtain ⟨F0, h⟩ := Ex2.exec_refines_sem_init cs hw
+  refine ⟨F0, fun F hF => ?_⟩
+  obtain ⟨s', h1, h2⟩ := h F hF
+  exact ⟨_, s', Lp.lex_print2 cs hp, rfl, h1, h2⟩
+
+-- non-vacuity: a program with a chord, a `Sub` and a tuplet that holds a loop and a chord
+def demoBlocks : List Cmd :=
+  [.setL (some ⟨⟨false, false, [56], 0⟩, []⟩),
+   .chord [.note 0 0 false none none none none none, .note 4 0 false none none none none none] (some ⟨⟨false, false, [52], 0⟩, []⟩) (some 80) none,
+   .sub [.note 7 0 false none none none none none, .div [.note 0 0 false none none none none none, .rest none 1] none],
+   .div [.loop 2 [.note 2 0 false none none none none none] true [.rest none 1],
+         .chord [.note 0 0 false none none none none none, .note 7 0 false none none none none none] none none none]
+     (some ⟨⟨false, false, [50], 0⟩, []⟩)]
+
+example : Lp.pwfL2 demoBlocks ∧ Ex2.cwfL demoBlocks := by
+  constructor
+  · simp [demoBlocks, Lp.pwfL2, Lp.pwf2, Lp.pwf, Ex2.lenOK, Lp.LenHeadOK, Lp.ChordLenOK, Ex2.lenText, Ex2.simple, Len.isDigit, Lx.isDigit, Len.render, Len.segs, Len.PartSyn.wf]
+  · simp [demoBlocks, Ex2.cwfL, Ex2.cwf, Ex2.noteWF, Ex2.lenOK, Ex2.simple, Len.isDigit, Len.render, Len.segs, Len.PartSyn.wf, Lx.intMin]
+-- (printed: "l8 'c e '4,80 Sub{g {c r } } {[2 d : r ] 'c g ' }2 ")
 
 end Sakura.Props.C03
